@@ -6,6 +6,7 @@ import (
 	"math/rand"
 	"sort"
 	"strings"
+	"sync"
 
 	"google.golang.org/protobuf/proto"
 
@@ -412,9 +413,53 @@ func explore(r *mon.Run, prop string) {
 	}
 }
 
+// concurrentReplay serves the case's requests from several goroutines at once
+// on the first registration and compares every outcome with the sequential
+// one: routing a request must not depend on what is routed at the same time.
+func concurrentReplay(r *mon.Run, c *Case, b *Built, seq []Outcome) {
+	const workers = 8
+	var wg sync.WaitGroup
+	var mu sync.Mutex
+	reported := false
+	for w := 0; w < workers; w++ {
+		wg.Add(1)
+		go func(w int) {
+			defer wg.Done()
+			n := len(c.Reqs)
+			for k := 0; k < n; k++ {
+				i := (k*7 + w*13) % n
+				rq := c.Reqs[i]
+				o := b.Do(rq.Verb, rq.Path, "", nil)
+				if !o.Same(seq[i]) {
+					mu.Lock()
+					if !reported {
+						reported = true
+						r.Violate("concurrent:outcome-differs-from-sequential:"+outcomeClass(seq[i])+"-vs-"+outcomeClass(o),
+							fmt.Sprintf("%s %s: alone [%s], while %d other requests were being routed [%s]", rq.Verb, rq.Path, seq[i], workers-1, o), oneReq(c, rq))
+					}
+					mu.Unlock()
+				}
+			}
+		}(w)
+	}
+	wg.Wait()
+	r.Count("concurrent_replays", 1)
+	r.Count("concurrent_requests", workers*len(c.Reqs))
+}
+
+var caseSeq int
+
 func runCase(r *mon.Run, c *Case, prules []ParsedRule, built []*Built) {
+	caseSeq++
+	var seq []Outcome
+	defer func() {
+		if len(seq) == len(c.Reqs) && len(seq) > 1 && (caseSeq%6 == 0 || r.ReplayMode) {
+			concurrentReplay(r, c, built[0], seq)
+		}
+	}()
 	for _, rq := range c.Reqs {
 		o0 := built[0].Do(rq.Verb, rq.Path, "", nil)
+		seq = append(seq, o0)
 		switch c.Prop {
 		case "C01":
 			checkC01(r, c, prules, rq, o0)
